@@ -201,8 +201,16 @@ func pass1(j job) (res result) {
 				if _, e = w.R.ValidateProposal(other, 2, true); e != nil {
 					ps = append(ps, problem{"restart-speculative", oneLine(e)})
 				}
+				feed(w.R, false, "restart-commit-replay")
+			} else {
+				// the restarted node validated this very block, then its round was interrupted (the real
+				// bft.RoundInterrupt: a missed leader message), and only then does the certified block arrive
+				if _, e = w.R.ValidateProposal(p, 0, true); e != nil {
+					ps = append(ps, problem{"restart-validate", oneLine(e)})
+				}
+				w.R.RoundInterrupt()
+				feed(w.R, false, "restart-commit-after-round-interrupt")
 			}
-			feed(w.R, false, "restart-commit-replay")
 		}
 		// sync path
 		feed(w.S, true, "sync")
